@@ -293,8 +293,8 @@ DIRECTED = [
     # a Git submodule directly below subprojects/, another one elsewhere, an ordinary Meson subproject, an ignored directory
     {"nodes": {"src/x.py": ("text", b"x = 1\n"), "subprojects/build/a.py": ("text", b"x = 1\n"), "subprojects/build/sub/b.txt": ("text", b"hello\n"),
                "subprojects/plain/c.py": ("text", b"x = 1\n"), "libs/sm/y.py": ("text", b"x = 1\n"), "libs/sm/LICENSE": ("text", b"hello\n"),
-               "out/gen.py": ("text", b"x = 1\n"), "README.md": ("text", b"hello\n")},
-     "git": {"ignore": {"": ["out/"]}, "tracked": ["src/x.py"], "forced": [], "submodules": ["subprojects/build", "libs/sm"], "exclude": []}},
+               "out/gen.py": ("text", b"x = 1\n"), "README.md": ("text", b"hello\n"), "subprojects/dl-1.3/inflate.c": ("text", b"x = 1\n"), "subprojects/dl-1.3/contrib/puff.c": ("text", b"x = 1\n")},
+     "git": {"ignore": {"": ["out/", "/subprojects/dl-1.3/"]}, "tracked": ["src/x.py"], "forced": [], "submodules": ["subprojects/build", "libs/sm"], "exclude": []}},
     # no VCS: subprojects at two depths, LICENSES and .reuse look-alikes below a sub-directory
     {"nodes": {"a.py": ("text", b"x = 1\n"), "subprojects/p/a.py": ("text", b"x = 1\n"), "d/subprojects/q/b.py": ("text", b"x = 1\n"), "d/LICENSES/MIT.txt": ("text", b"hello\n"),
                "d/.reuse/dep5": ("text", b"hello\n"), "LICENSES/MIT.txt": ("text", b"hello\n"), "d/x.license": ("text", b"hello\n"), "d/COPYING.md": ("text", b"hello\n")},
